@@ -10,6 +10,8 @@ import (
 	"fmt"
 	"sort"
 	"strings"
+	"sync/atomic"
+	"time"
 
 	cose "github.com/veraison/go-cose"
 
@@ -203,10 +205,33 @@ func Execute(r *Run, sc Scenario) (skipped string) {
 			}
 			return p
 		})
+		// the wall clock of the library is the simulator's: an instant far in
+		// the past, around today or far in the future, advancing by a step
+		// (none ... decades) at every read - clock skew and jumps as one
+		// tape-drawn configuration.  The pinned go-cose never reads it; a
+		// verdict or an encoding that starts to depend on it shows up as a
+		// difference to the clock-less reference model.
+		bases := []int64{0, 1_000_000_000, 1_790_000_000, 1<<31 + 100, 4_102_444_800, 253_402_300_799}
+		steps := []int64{0, 1, 3600, 400 * 86400, 80 * 365 * 86400}
+		ci := r.T.Choose(len(bases)*len(steps), "clock")
+		base, step := bases[ci%len(bases)], steps[ci/len(bases)]
+		reads0 := ClockReads()
+		var nreads atomic.Int64
+		SetNowHook(func() time.Time {
+			n := nreads.Add(1) - 1
+			return time.Unix(base+n*step, 0).UTC()
+		})
 		defer func() {
 			SetPermHook(nil)
+			SetNowHook(nil)
 			if r.mapPerms > 0 {
 				r.Faults["maporder"] += r.mapPerms
+			}
+			if n := ClockReads() - reads0; n > 0 {
+				r.Faults["clock.read-by-library"] += int(n)
+				if step > 0 {
+					r.Faults["clock.jump"] += int(n)
+				}
 			}
 		}()
 	}
